@@ -3,19 +3,22 @@ Model of the Skyway outbound/inbound bridge life-cycle:
   x/skyway/keeper/pool.go      AddToOutgoingPool, RemoveFromOutgoingPoolAndRefund
   x/skyway/keeper/batch.go     BuildOutgoingTXBatch, CancelOutgoingTXBatch, OutgoingTxBatchExecuted,
                                UpdateBatchGasEstimate
-  x/skyway/keeper/keeper.go    bridgeTaxAmount, UpdateBridgeTransferUsageWithLimit
+  x/skyway/keeper/keeper.go    bridgeTaxAmount, UpdateBridgeTransferUsageWithLimit, SetBridgeTax
+  x/skyway/keeper/evidence.go  checkBadSignatureEvidenceInternal
+  x/evm/keeper/keeper.go       GetValidatorAddressByEthAddress;  x/valset/keeper/keeper.go  SetExternalChainInfoState
   x/skyway/keeper/attestation_handler.go  handleSendToPaloma, handleBatchSendToRemote
   x/skyway/abci.go             createBatch, attestationTally (single fully-voted claim per nonce),
                                processGasEstimates, cleanupTimedOutBatches
 
 Every step mirrors the Go statement order as far as collaborator calls are concerned: a step
-threads a `Fault` (which collaborator call class fails, and the how-many-th call of that class)
-and *ticks* it at each call site in source order.  Message-level steps (`send`, `cancel`) are
-atomic because baseapp runs a message in a cached store; keeper functions wrapped in
-`CacheContext()`+commit-on-nil are atomic by themselves.
+threads a `Fault` (which calls of which collaborator class fail) and *ticks* it at each call site in
+source order.  Every step is "guards, then one effect function" (`sendOk`, `cancelOk`, `buildOk`, …):
+the effect function is what a successful operation does to the state; a rejected operation returns the
+state it was given.  Message-level steps (`send`, `cancel`) are atomic because baseapp runs a message
+in a cached store; keeper functions wrapped in `CacheContext()`+commit-on-nil are atomic by themselves.
 
-Core Lean only.  Users, tokens, ids are naturals; amounts are unbounded `Nat` with the
-`sdkmath.Int` 256-bit overflow panic made explicit.
+Core Lean only.  Users, tokens, ids, validators, remote keys are naturals; amounts are unbounded `Nat`
+with the `sdkmath.Int` 256-bit overflow panic made explicit.
 -/
 namespace Paloma.Bridge
 
@@ -33,21 +36,23 @@ def tPool : Target := 6
 def tMint : Target := 7
 def tBurn : Target := 8
 
-/-- `target = 0` means no fault. The `nth` call (1-based) to `target` fails. -/
+/-- A fault *sequence*: every `(class, n)` in `points` makes the `n`-th call (1-based) of that
+    collaborator class fail; `seen` records the calls made so far.  `points = []` is a fault-free run,
+    one point is what the `verif` hook of /repo injects, several points are several failures within
+    one operation (e.g. within one end-block). -/
 structure Fault where
-  target : Target
-  nth : Nat
-  seen : Nat := 0
-deriving Repr, DecidableEq
+  points : List (Target × Nat)
+  seen : List Target := []
+deriving Repr
 
-def Fault.none : Fault := { target := 0, nth := 0 }
+def Fault.none : Fault := { points := [] }
 
-/-- one collaborator call of class `t`: returns the updated counter and whether this call fails -/
+/-- the `nth` call of class `t` fails -/
+def Fault.at (t : Target) (nth : Nat) : Fault := { points := [(t, nth)] }
+
+/-- one collaborator call of class `t`: returns the updated call record and whether this call fails -/
 def Fault.tick (f : Fault) (t : Target) : Fault × Bool :=
-  if f.target == t && t != 0 then
-    let f' := { f with seen := f.seen + 1 }
-    (f', f'.seen == f.nth)
-  else (f, false)
+  ({ f with seen := t :: f.seen }, t != 0 && f.points.contains (t, (t :: f.seen).count t))
 
 /-! ### state -/
 
@@ -69,19 +74,27 @@ structure Batch where
   estimate : Nat
 deriving Repr, DecidableEq
 
-/-- rate = num/den (den > 0, as `big.Rat` normalises), exempt senders -/
+/-- a checkpoint `(token, nonce, estimate, content variant)`; variant 0 is the content the chain itself
+    gave the batch, any other variant is a batch body the chain never stored (forged) -/
+abbrev Ckpt := Nat × Nat × Nat × Nat
+
+/-- the bytes the chain currently asks validators to sign for an open batch (`BytesToSign`) -/
+def Batch.ckpt (b : Batch) : Ckpt := (b.token, b.nonce, b.estimate, 0)
+
+/-- rate = num/den (`SetBridgeTax` refuses a rate `big.Rat` cannot parse, so `den > 0` in every stored
+    setting: see `setTax`), exempt senders -/
 structure TaxCfg where
   num : Nat
   den : Nat
   exempt : List Nat
-deriving Repr
+deriving Repr, DecidableEq
 
 /-- period in blocks (0 = `LimitPeriod_NONE`) -/
 structure LimitCfg where
   period : Nat
   limit : Nat
   exempt : List Nat
-deriving Repr
+deriving Repr, DecidableEq
 
 structure Usage where
   start : Nat
@@ -97,6 +110,12 @@ inductive Claim where
   | deposit (token amount : Nat) (receiver : Option Nat) (tokenKnown : Bool)
 deriving Repr, DecidableEq
 
+inductive Res where
+  | ok
+  | noop      -- nothing to do (e.g. empty batch build)
+  | rejected  -- the operation reported failure
+deriving Repr, DecidableEq
+
 structure St where
   pool : List Tx
   batches : List Batch
@@ -108,35 +127,36 @@ structure St where
   tax : Nat → Option TaxCfg
   limit : Nat → Option LimitCfg
   usage : Nat → Option Usage
-  /-- archived checkpoints `(token, nonce, estimate, content variant)` (PastEthSignatureCheckpoint);
-      variant 0 is the content the chain itself gave the batch -/
-  archive : List (Nat × Nat × Nat × Nat)
-  /-- ghost: every checkpoint the chain ever published for signing (stored as a batch's BytesToSign) -/
-  issued : List (Nat × Nat × Nat × Nat)
+  /-- archived checkpoints (PastEthSignatureCheckpoint) -/
+  archive : List Ckpt
+  /-- `(validator, remote key)`: the key each validator registered for the bridge's chain
+      (valset external chain infos, read through `GetValidatorAddressByEthAddress`) -/
+  keys : List (Nat × Nat)
   /-- validators jailed through bad-signature evidence -/
   jailed : List Nat
   lastObserved : Nat
   claims : List (Nat × Claim)
-  /-- ghost history -/
+  /- History logs: written, never read by any step.  Each is tied to the op history / the executable
+     state by theorems of Props/C01.lean (`accepted_provenance`, `refunded_provenance`, `fundLog_eq`,
+     `user_ledger`, `minted_eq_applied`, `applied_once_in_order`, `credits_from_deposit_claims`,
+     `burned_provenance`, `minted_without_faults`). -/
   accepted : List Tx
   refunded : List Tx
   burned : List Tx
   minted : Nat → Nat
   funded : Nat → Nat
-  /-- ghost: amounts of the limited sends accepted in the token's current limit window -/
-  winLog : Nat → List Nat
+  /-- `(user, token, amount)` of every `fund`, newest first -/
+  fundLog : List (Nat × Nat × Nat)
+  /-- `(holder, token, amount)` of every credit of freshly minted deposit coins, newest first -/
+  creditLog : List (Nat × Nat × Nat)
+  /-- `(nonce, claim, handler result)` of every claim the tally observed, newest first -/
+  applied : List (Nat × Claim × Res)
 
 def St.init : St :=
   { pool := [], batches := [], bal := fun _ _ => 0, escrow := fun _ => 0, supply := fun _ => 0,
     lastTx := 0, lastBatch := 0, tax := fun _ => none, limit := fun _ => none, usage := fun _ => none,
-    archive := [], issued := [], jailed := [], lastObserved := 0, claims := [], accepted := [], refunded := [], burned := [],
-    minted := fun _ => 0, funded := fun _ => 0, winLog := fun _ => [] }
-
-inductive Res where
-  | ok
-  | noop      -- nothing to do (e.g. empty batch build)
-  | rejected  -- the operation reported failure
-deriving Repr, DecidableEq
+    archive := [], keys := [], jailed := [], lastObserved := 0, claims := [], accepted := [], refunded := [],
+    burned := [], minted := fun _ => 0, funded := fun _ => 0, fundLog := [], creditLog := [], applied := [] }
 
 def upd (f : Nat → Nat) (k v : Nat) : Nat → Nat := fun x => if x = k then v else f x
 def upd2 (f : Nat → Nat → Nat) (u k v : Nat) : Nat → Nat → Nat :=
@@ -161,18 +181,15 @@ def taxOverflows (cfg : Option TaxCfg) (sender amt : Nat) : Bool :=
   | some c => if c.num == 0 then false else if c.exempt.contains sender then false
               else decide (amt * c.num ≥ maxInt)
 
-/-- `UpdateBridgeTransferUsageWithLimit`: `none` = rejected, `some u` = usage to persist -/
+/-- is the sender subject to the token's transfer limit? -/
 def limitApplies (lim : Option LimitCfg) (sender : Nat) : Bool :=
   match lim with
   | none => false
   | some l => !(l.exempt.contains sender) && l.period != 0
 
-/-- does this send start a new window (no usage on record, or the old window has run out)? -/
-def rollsOver (lim : Option LimitCfg) (usage : Option Usage) (h : Nat) : Bool :=
-  match lim, usage with
-  | some l, some u => decide (h - u.start ≥ l.period)
-  | _, _ => true
-
+/-- `UpdateBridgeTransferUsageWithLimit`: `none` = rejected, `some u` = usage to persist.
+    (`h - u.start` is an `int64` subtraction in Go; it is only compared with a period `> 0`, where the
+    truncated subtraction of `Nat` gives the same answer: `window_test_int` in Props/C15.lean.) -/
 def limitStep (lim : Option LimitCfg) (usage : Option Usage) (sender amt h : Nat) : Option (Option Usage) :=
   match lim with
   | none => some usage
@@ -185,6 +202,15 @@ def limitStep (lim : Option LimitCfg) (usage : Option Usage) (sender amt h : Nat
         | some u => if h - u.start ≥ l.period then { start := h, total := amt }
                     else { start := u.start, total := u.total + amt }
       if nu.total > l.limit then none else some (some nu)
+
+/-- `SetBridgeTax`: a rate that does not parse as a rational (denominator 0) is refused -/
+def setTax (s : St) (tok : Nat) (c : Option TaxCfg) : St :=
+  match c with
+  | none => { s with tax := updO s.tax tok none }
+  | some cfg => if cfg.den == 0 then s else { s with tax := updO s.tax tok (some cfg) }
+
+/-- `SetBridgeTransferLimit` -/
+def setLimit (s : St) (tok : Nat) (c : Option LimitCfg) : St := { s with limit := updO s.limit tok c }
 
 /-! ### pool helpers -/
 
@@ -210,35 +236,39 @@ def removeBatch (l : List Batch) (tok nonce : Nat) : List Batch :=
 
 /-! ### message-level steps (atomic through baseapp's per-message cache) -/
 
+/-- the transfer an accepted send records: the tax is the one computed *now* -/
+def newTx (s : St) (u tok amt : Nat) : Tx :=
+  { id := s.lastTx + 1, sender := u, token := tok, amount := amt, tax := taxOf (s.tax tok) u amt }
+
+/-- effect of an accepted send -/
+def sendOk (s : St) (u tok amt : Nat) (usage' : Option Usage) : St :=
+  { s with pool := newTx s u tok amt :: s.pool,
+           bal := upd2 s.bal u tok (s.bal u tok - (newTx s u tok amt).owed),
+           escrow := upd s.escrow tok (s.escrow tok + (newTx s u tok amt).owed),
+           lastTx := s.lastTx + 1,
+           usage := updO s.usage tok usage',
+           accepted := newTx s u tok amt :: s.accepted }
+
 /-- `MsgSendToRemote` → `AddToOutgoingPool` at block height `h`. -/
 def send (s : St) (f : Fault) (u tok amt h : Nat) : St × Fault × Res :=
   match limitStep (s.limit tok) (s.usage tok) u amt h with
   | none => (s, f, .rejected)
   | some usage' =>
     if taxOverflows (s.tax tok) u amt then (s, f, .rejected) else
-    let tax := taxOf (s.tax tok) u amt
-    if amt + tax ≥ maxInt then (s, f, .rejected) else
-    let f1 := (f.tick tLock).1
-    let fail1 := (f.tick tLock).2
-    if fail1 then (s, f1, .rejected) else
-    if amt = 0 then (s, f1, .rejected) else       -- sdk.Coins validation refuses a zero coin
-    if s.bal u tok < amt + tax then (s, f1, .rejected) else
-    let f2 := (f1.tick tChainInfo).1
-    let fail2 := (f1.tick tChainInfo).2
-    if fail2 then (s, f2, .rejected) else
-    let id := s.lastTx + 1
-    let t : Tx := { id := id, sender := u, token := tok, amount := amt, tax := tax }
-    ({ s with pool := t :: s.pool,
-              bal := upd2 s.bal u tok (s.bal u tok - (amt + tax)),
-              escrow := upd s.escrow tok (s.escrow tok + (amt + tax)),
-              lastTx := id,
-              usage := updO s.usage tok usage',
-              accepted := t :: s.accepted,
-              winLog := if limitApplies (s.limit tok) u then
-                          (fun x => if x = tok then
-                              (if rollsOver (s.limit tok) (s.usage tok) h then [amt] else amt :: s.winLog tok)
-                            else s.winLog x)
-                        else s.winLog }, f2, .ok)
+    if amt + taxOf (s.tax tok) u amt ≥ maxInt then (s, f, .rejected) else
+    if (f.tick tLock).2 then (s, (f.tick tLock).1, .rejected) else
+    if amt = 0 then (s, (f.tick tLock).1, .rejected) else       -- sdk.Coins validation refuses a zero coin
+    if s.bal u tok < amt + taxOf (s.tax tok) u amt then (s, (f.tick tLock).1, .rejected) else
+    if (((f.tick tLock).1).tick tChainInfo).2 then (s, (((f.tick tLock).1).tick tChainInfo).1, .rejected) else
+    (sendOk s u tok amt usage', (((f.tick tLock).1).tick tChainInfo).1, .ok)
+
+/-- effect of a successful cancellation of the pooled transfer `t`: amount *and recorded tax* go back
+    to `t.sender` -/
+def cancelOk (s : St) (t : Tx) : St :=
+  { s with pool := s.pool.filter (fun x => x.id != t.id),
+           bal := upd2 s.bal t.sender t.token (s.bal t.sender t.token + t.owed),
+           escrow := upd s.escrow t.token (s.escrow t.token - t.owed),
+           refunded := t :: s.refunded }
 
 /-- `MsgCancelSendToRemote` → `RemoveFromOutgoingPoolAndRefund`. -/
 def cancel (s : St) (f : Fault) (u id : Nat) : St × Fault × Res :=
@@ -247,50 +277,54 @@ def cancel (s : St) (f : Fault) (u id : Nat) : St × Fault × Res :=
   | none => (s, f, .rejected)
   | some t =>
     if t.sender != u then (s, f, .rejected) else
-    let f1 := (f.tick tSend).1
-    let fail1 := (f.tick tSend).2
-    if fail1 then (s, f1, .rejected) else
-    let f2 := (f1.tick tChainInfo).1
-    let fail2 := (f1.tick tChainInfo).2
-    if fail2 then (s, f2, .rejected) else
-    ({ s with pool := s.pool.filter (fun x => x.id != id),
-              bal := upd2 s.bal u t.token (s.bal u t.token + t.owed),
-              escrow := upd s.escrow t.token (s.escrow t.token - t.owed),
-              refunded := t :: s.refunded }, f2, .ok)
+    if (f.tick tSend).2 then (s, (f.tick tSend).1, .rejected) else
+    if (((f.tick tSend).1).tick tChainInfo).2 then (s, (((f.tick tSend).1).tick tChainInfo).1, .rejected) else
+    (cancelOk s t, (((f.tick tSend).1).tick tChainInfo).1, .ok)
 
 /-! ### keeper-level steps (each wrapped in CacheContext + commit-on-success) -/
 
+/-- the transfers a build for `tok` selects: the first `OutgoingTxBatchSize` in pool iteration order -/
+def selectedFor (s : St) (tok : Nat) : List Tx :=
+  (sortDesc (s.pool.filter (fun t => t.token == tok))).take OutgoingTxBatchSize
+
+def newBatch (s : St) (tok time : Nat) : Batch :=
+  { nonce := s.lastBatch + 1, token := tok, txs := selectedFor s tok, timeout := time + 600, estimate := 0 }
+
+/-- effect of a successful batch build (stores the batch *and* archives its checkpoint) -/
+def buildOk (s : St) (tok time : Nat) : St :=
+  { s with pool := s.pool.filter (fun t => !(t.token == tok)) ++
+                     (sortDesc (s.pool.filter (fun t => t.token == tok))).drop OutgoingTxBatchSize,
+           batches := newBatch s tok time :: s.batches,
+           lastBatch := s.lastBatch + 1,
+           archive := (newBatch s tok time).ckpt :: s.archive }
+
 /-- `BuildOutgoingTXBatch` for one token at block time `time` (seconds). -/
 def buildOne (s : St) (f : Fault) (tok time : Nat) : St × Fault × Res :=
-  let mine := sortDesc (s.pool.filter (fun t => t.token == tok))
-  let selected := mine.take OutgoingTxBatchSize
-  if selected.isEmpty then (s, f, .noop) else
-  let f1 := (f.tick tChainInfo).1
-  let fail1 := (f.tick tChainInfo).2
-  if fail1 then (s, f1, .rejected) else
-  let f2 := (f1.tick tPick).1
-  let fail2 := (f1.tick tPick).2
-  if fail2 then (s, f2, .rejected) else
-  let f3 := (f2.tick tEthAddr).1
-  let fail3 := (f2.tick tEthAddr).2
-  if fail3 then (s, f3, .rejected) else
-  let nonce := s.lastBatch + 1
-  let b : Batch := { nonce := nonce, token := tok, txs := selected, timeout := time + 600, estimate := 0 }
-  ({ s with pool := s.pool.filter (fun t => !(t.token == tok)) ++ mine.drop OutgoingTxBatchSize,
-            batches := b :: s.batches,
-            lastBatch := nonce,
-            archive := (tok, nonce, 0, 0) :: s.archive,
-            issued := (tok, nonce, 0, 0) :: s.issued }, f3, .ok)
+  if (selectedFor s tok).isEmpty then (s, f, .noop) else
+  if (f.tick tChainInfo).2 then (s, (f.tick tChainInfo).1, .rejected) else
+  if (((f.tick tChainInfo).1).tick tPick).2 then (s, (((f.tick tChainInfo).1).tick tPick).1, .rejected) else
+  if ((((f.tick tChainInfo).1).tick tPick).1.tick tEthAddr).2 then
+    (s, ((((f.tick tChainInfo).1).tick tPick).1.tick tEthAddr).1, .rejected) else
+  (buildOk s tok time, ((((f.tick tChainInfo).1).tick tPick).1.tick tEthAddr).1, .ok)
+
+/-- effect of a successful cancellation of the open batch `b` -/
+def cancelBatchOk (s : St) (b : Batch) : St :=
+  { s with pool := b.txs ++ s.pool, batches := removeBatch s.batches b.token b.nonce }
 
 /-- `CancelOutgoingTXBatch`. -/
 def cancelBatch (s : St) (f : Fault) (tok nonce : Nat) : St × Fault × Res :=
   match findBatch s.batches tok nonce with
   | none => (s, f, .rejected)
   | some b =>
-    let f1 := (f.tick tChainInfo).1
-    let fail1 := (f.tick tChainInfo).2
-    if fail1 then (s, f1, .rejected) else
-    ({ s with pool := b.txs ++ s.pool, batches := removeBatch s.batches tok nonce }, f1, .ok)
+    if (f.tick tChainInfo).2 then (s, (f.tick tChainInfo).1, .rejected) else
+    (cancelBatchOk s b, (f.tick tChainInfo).1, .ok)
+
+/-- effect of the attested execution of the open batch `b`: amount plus tax of its transfers is burned -/
+def execOk (s : St) (b : Batch) : St :=
+  { s with batches := removeBatch s.batches b.token b.nonce,
+           escrow := upd s.escrow b.token (s.escrow b.token - (b.txs.map Tx.owed).sum),
+           supply := upd s.supply b.token (s.supply b.token - (b.txs.map Tx.owed).sum),
+           burned := b.txs ++ s.burned }
 
 /-- `OutgoingTxBatchExecuted` (through `handleBatchSendToRemote`). -/
 def execBatch (s : St) (f : Fault) (tok nonce ethHeight : Nat) : St × Fault × Res :=
@@ -298,16 +332,11 @@ def execBatch (s : St) (f : Fault) (tok nonce ethHeight : Nat) : St × Fault × 
   | none => (s, f, .rejected)
   | some b =>
     if b.timeout ≤ ethHeight then (s, f, .rejected) else
-    let total := (b.txs.map Tx.owed).sum
-    let f1 := (f.tick tBurn).1
-    let fail1 := (f.tick tBurn).2
-    if fail1 then (s, f1, .rejected) else
+    if (f.tick tBurn).2 then (s, (f.tick tBurn).1, .rejected) else
     -- the bank refuses to burn more than the module holds / more than exists
-    if s.escrow tok < total || s.supply tok < total then (s, f1, .rejected) else
-    ({ s with batches := removeBatch s.batches tok nonce,
-              escrow := upd s.escrow tok (s.escrow tok - total),
-              supply := upd s.supply tok (s.supply tok - total),
-              burned := b.txs ++ s.burned }, f1, .ok)
+    if s.escrow b.token < (b.txs.map Tx.owed).sum || s.supply b.token < (b.txs.map Tx.owed).sum then
+      (s, (f.tick tBurn).1, .rejected) else
+    (execOk s b, (f.tick tBurn).1, .ok)
 
 /-- `handleSendToPaloma` inside `processAttestation`'s cached context. -/
 def depositMinted (s : St) (tok amt : Nat) : St :=
@@ -315,12 +344,16 @@ def depositMinted (s : St) (tok amt : Nat) : St :=
            minted := upd s.minted tok (s.minted tok + amt) }
 
 def creditTo (s : St) (who tok amt : Nat) : St :=
-  { s with bal := upd2 s.bal who tok (s.bal who tok + amt) }
+  { s with bal := upd2 s.bal who tok (s.bal who tok + amt),
+           creditLog := (who, tok, amt) :: s.creditLog }
+
+/-- effect of an applied deposit: `amt` is minted and credited to `who` (receiver or community pool) -/
+def depositOk (s : St) (who tok amt : Nat) : St := creditTo (depositMinted s tok amt) who tok amt
 
 /-- fallback of a deposit: the minted coins go to the community pool (`s` = state before the mint) -/
 def depositToPool (s : St) (f : Fault) (tok amt : Nat) : St × Fault × Res :=
   if (f.tick tPool).2 then (s, (f.tick tPool).1, .rejected)
-  else (creditTo (depositMinted s tok amt) communityPool tok amt, (f.tick tPool).1, .ok)
+  else (depositOk s communityPool tok amt, (f.tick tPool).1, .ok)
 
 def deposit (s : St) (f : Fault) (tok amt : Nat) (receiver : Option Nat) (tokenKnown : Bool) :
     St × Fault × Res :=
@@ -330,26 +363,47 @@ def deposit (s : St) (f : Fault) (tok amt : Nat) (receiver : Option Nat) (tokenK
   | none => depositToPool s (f.tick tMint).1 tok amt
   | some r =>
     if (((f.tick tMint).1).tick tSend).2 then depositToPool s (((f.tick tMint).1).tick tSend).1 tok amt
-    else (creditTo (depositMinted s tok amt) r tok amt, (((f.tick tMint).1).tick tSend).1, .ok)
+    else (depositOk s r tok amt, (((f.tick tMint).1).tick tSend).1, .ok)
 
-/-- `UpdateBatchGasEstimate` (archives the re-issued checkpoint — the C13 repair). -/
+/-- effect of an elected gas estimate on the batch `(tok, nonce)`: the batch's signing bytes change and
+    the re-issued checkpoint is archived (the C13 repair) -/
+def estimateOk (s : St) (tok nonce est : Nat) : St :=
+  { s with batches := s.batches.map (fun x => if x.token == tok && x.nonce == nonce then { x with estimate := est } else x),
+           archive := (tok, nonce, est, 0) :: s.archive }
+
+/-- `UpdateBatchGasEstimate`. -/
 def setEstimate (s : St) (f : Fault) (tok nonce est : Nat) : St × Fault × Res :=
   match findBatch s.batches tok nonce with
   | none => (s, f, .rejected)
   | some b =>
     if b.estimate > 0 then (s, f, .rejected) else
-    let f1 := (f.tick tChainInfo).1
-    let fail1 := (f.tick tChainInfo).2
-    if fail1 then (s, f1, .rejected) else
-    ({ s with batches := s.batches.map (fun x => if x.token == tok && x.nonce == nonce then { x with estimate := est } else x),
-              archive := (tok, nonce, est, 0) :: s.archive,
-              issued := (tok, nonce, est, 0) :: s.issued }, f1, .ok)
+    if (f.tick tChainInfo).2 then (s, (f.tick tChainInfo).1, .rejected) else
+    (estimateOk s tok nonce est, (f.tick tChainInfo).1, .ok)
+
+/-! ### validators' remote keys and bad-signature evidence (C13) -/
+
+/-- `GetValidatorAddressByEthAddress`: the first validator (store order) that registered `key` -/
+def lookupKey (keys : List (Nat × Nat)) (key : Nat) : Option Nat :=
+  (keys.find? (fun p => p.2 == key)).map (·.1)
+
+def setKey : List (Nat × Nat) → Nat → Nat → List (Nat × Nat)
+  | [], v, k => [(v, k)]
+  | p :: ps, v, k => if p.1 == v then (v, k) :: ps else p :: setKey ps v k
+
+/-- valset `AddExternalChainInfo` for the bridge's chain: refused for a jailed validator
+    (`CanAcceptValidator`) and when another validator already holds the key, otherwise the validator's
+    registration is replaced -/
+def registerKey (s : St) (v key : Nat) : St × Res :=
+  if s.jailed.contains v then (s, .rejected) else
+  if s.keys.any (fun p => p.1 != v && p.2 == key) then (s, .rejected)
+  else ({ s with keys := setKey s.keys v key }, .ok)
 
 /-- `MsgSubmitBadSignatureEvidence` → `checkBadSignatureEvidenceInternal`: `c` is the checkpoint of the
-    submitted batch, `signer` the validator whose registered remote key signed it (if any). -/
-def evidence (s : St) (c : Nat × Nat × Nat × Nat) (signer : Option Nat) : St × Res :=
+    submitted batch, `key` the remote key recovered from the signature over `c` (ECDSA recovery is
+    trusted: the recovered key is the key that signed).  The validator is *looked up* in the registry. -/
+def evidence (s : St) (c : Ckpt) (key : Nat) : St × Res :=
   if s.archive.contains c then (s, .rejected) else
-  match signer with
+  match lookupKey s.keys key with
   | none => (s, .rejected)
   | some v => if s.jailed.contains v then (s, .ok) else ({ s with jailed := v :: s.jailed }, .ok)
 
@@ -357,7 +411,8 @@ def evidence (s : St) (c : Nat × Nat × Nat × Nat) (signer : Option Nat) : St 
 def fund (s : St) (u tok amt : Nat) : St :=
   { s with bal := upd2 s.bal u tok (s.bal u tok + amt),
            supply := upd s.supply tok (s.supply tok + amt),
-           funded := upd s.funded tok (s.funded tok + amt) }
+           funded := upd s.funded tok (s.funded tok + amt),
+           fundLog := (u, tok, amt) :: s.fundLog }
 
 /-! ### end-block composite (x/skyway/abci.go:EndBlocker) -/
 
@@ -375,6 +430,15 @@ def applyClaim (s : St) (f : Fault) : Claim → St × Fault × Res
   | .executed tok nonce h => execBatch s f tok nonce h
   | .deposit tok amt r known => deposit s f tok amt r known
 
+/-- one observation of the tally: the cursor moves to the claim's nonce, the handler runs in its own
+    cached context, and the observation is recorded whether or not the handler succeeded -/
+def observe (s : St) (f : Fault) (n : Nat) (c : Claim) : St × Fault × Res :=
+  ({ (applyClaim { s with lastObserved := n } f c).1 with
+       applied := (n, c, (applyClaim { s with lastObserved := n } f c).2.2) ::
+                    (applyClaim { s with lastObserved := n } f c).1.applied },
+   (applyClaim { s with lastObserved := n } f c).2.1,
+   (applyClaim { s with lastObserved := n } f c).2.2)
+
 /-- `attestationTally` for fully-voted claims: apply the claim at `lastObserved+1`, advance the
     cursor whether or not the handler succeeded, emit the event (a failing `GetChainInfo` there
     aborts the rest of the tally with the state kept); fuel = number of stored claims. -/
@@ -384,7 +448,7 @@ def tally (s : St) (f : Fault) : Nat → St × Fault × List Res
     match s.claims.find? (fun c => c.1 == s.lastObserved + 1) with
     | none => (s, f, [])
     | some (n, c) =>
-      let (s', f', r) := applyClaim { s with lastObserved := n } f c
+      let (s', f', r) := observe s f n c
       let (f'', fail) := f'.tick tChainInfo
       if fail then (s', f'', [r])
       else
